@@ -251,8 +251,34 @@ impl<'a, 'tcx> Cx<'a, 'tcx> {
                     Some(mir::interpret::GlobalAlloc::Function { instance }) => {
                         o.push(("fnptr".into(), J::Str(fn_key(tcx, instance.def_id()))));
                     }
-                    Some(mir::interpret::GlobalAlloc::Memory(_)) => {
+                    Some(mir::interpret::GlobalAlloc::Memory(alloc)) => {
                         o.push(("mem".into(), J::Bool(true)));
+                        // `&Enum::Variant` of a field-less enum (promoted constants such as `&Stage::Parse`)
+                        if let ty::Ref(_, inner, _) = ty.kind() {
+                            if let ty::Adt(adt, _) = inner.kind() {
+                                if adt.is_enum() && adt.variants().iter().all(|v| v.fields.is_empty()) {
+                                    if let Ok(layout) = tcx.layout_of(self.env.as_query_input(*inner)) {
+                                        let size = layout.size.bytes_usize();
+                                        let off = ptr.into_raw_parts().1.bytes_usize();
+                                        let a = alloc.inner();
+                                        if size >= 1 && size <= 8 && off + size <= a.len() {
+                                            let bytes = a.inspect_with_uninit_and_ptr_outside_interpreter(off..off + size);
+                                            let mut v: u128 = 0;
+                                            for (i, b) in bytes.iter().enumerate() {
+                                                v |= (*b as u128) << (8 * i);
+                                            }
+                                            for (idx, d) in adt.discriminants(tcx) {
+                                                let mask = if size >= 16 { u128::MAX } else { (1u128 << (8 * size)) - 1 };
+                                                if d.val & mask == v {
+                                                    o.push(("enum_variant".into(), J::Str(adt.variant(idx).name.to_string())));
+                                                    o.push(("enum".into(), J::Str(fn_key(tcx, adt.did()))));
+                                                }
+                                            }
+                                        }
+                                    }
+                                }
+                            }
+                        }
                     }
                     _ => {}
                 }
